@@ -19,7 +19,8 @@ META = {
             "(client play / client config / backend play / backend config x register / unregister / registered "
             "channel / other channel x subscriber action x body shape incl. empty, many and invalid channel "
             "names), checks the table's sanity and non-vacuity, and every row is driven through the real handlers "
-            "on the live proxy (1.20.4 for the configuration handlers; 1.8, 1.12.2 with the legacy REGISTER / "
+            "on the live proxy (overlap rows hold the first event in the subscriber until a second, different message "
+            "of the same size was taken in; 1.20.4 for the configuration handlers; 1.8, 1.12.2 with the legacy REGISTER / "
             "UNREGISTER names, 1.20.1 and 1.20.4 for the play handlers); the logged events and forwarded packets are validated by TLC row by row. Inputs "
             "are the quantifier; the table is exhaustive over the modelled classes.",
     "design_ref": "DESIGN.md section 4, C25",
